@@ -21,7 +21,9 @@ LFB = ["torch.storage", "_load_from_bytes"]
 PLOADS = ["pickle", "loads"]
 CLOADS = ["_pickle", "loads"]
 GOOD = [["collections", "OrderedDict"], ["numpy", "dtype"], ["torch", "Size"]]
-BADG = [SINK, ["fractions", "Fraction"], ["collections", "Counter"], ["torch", "is_tensor"], ["decimal", "Decimal"]]
+BADG = [SINK, ["fractions", "Fraction"], ["collections", "Counter"], ["torch", "is_tensor"], ["decimal", "Decimal"],
+        # qualified names hanging off an allow-listed object (STACK_GLOBAL, protocol 4): not in the allowlist
+        ["collections", "OrderedDict.fromkeys"], ["torch", "Size.count"]]
 ADDS = [None, ["pickle.loads", "_pickle.loads"], ["_pickle.loads", "fractions.Fraction"],
         ["pickle.loads", "verif_sink.record"]]
 ENTRY_KIND = {"pl": "pickle.load", "pls": "pickle.loads", "cl": "_pickle.load", "cls": "_pickle.loads"}
@@ -127,7 +129,7 @@ def grid_cases(table):
             for c, ct in PAIRS:
                 slot = payload_slot(table, c, ct)
                 for wrap in (0, 1, 2):
-                    for g in (GOOD[1], SINK, BADG[2]):
+                    for g in (GOOD[1], SINK, BADG[2], BADG[5]):
                         ids = Ids()
                         kinds, _ = table[(c[0], c[1], ct)]
                         chev = [[] for _ in kinds]
